@@ -35,6 +35,11 @@
 //	paths/processes get exactly their answers; nothing further is delivered afterwards; a Send
 //	caller whose response is taken by another consumer still gets a packet when the writer closes.
 //
+// Fan-in (fanin.go): several writers linked to one reader – two packet.Writers on one packet.Reader,
+// two out-ports linked to one in-port of one process, the same with a node upstream of the first
+// writer – with unique request payloads and answers derived from the request they answer, so that
+// an unaffected requester handed somebody else's answer is detected (class misrouted-answer).
+//
 // The whole enumeration runs in a child process of the harness binary: a panic inside a node
 // goroutine kills the process and is reported with the scenario that was running.
 package c03
@@ -1961,6 +1966,9 @@ func Run(c *lib.Ctx) {
 
 	// 1. corpus: hand-written crash points (witnesses of the fixed defect)
 	for i, f := range c.CorpusFiles() {
+		if isFanCorpus(f) {
+			continue // fan-in family: run by runFanIn
+		}
 		cc, e := parseCorpus(f, i+1)
 		if e != "" {
 			fails = append(fails, lib.OracleFail{Class: "corpus", What: "unusable corpus file " + f + ": " + e})
@@ -1987,7 +1995,20 @@ func Run(c *lib.Ctx) {
 			}
 		}
 	}
-	// 3. Send's own guard
+	// 3. fan-in: several writers on one reader (fanin.go)
+	runFanIn(c, rng, model, func(class, what, replay string) {
+		if isKnown(class) {
+			knownSeen[class]++
+			if knownSeen[class] > 2 {
+				return
+			}
+		} else {
+			unknownFails++
+		}
+		fails = append(fails, lib.OracleFail{Class: class, What: what, Replay: replay})
+	}, func(line string) { fmt.Fprintln(prog, line) })
+
+	// 4. Send's own guard
 	fails = append(fails, stolen(c, c.Scale(40, 300))...)
 
 	for k, n := range knownSeen {
